@@ -393,6 +393,10 @@ func (w *walReader) ReadBytes() ([]byte, error) {
 	payloadLen := binary.BigEndian.Uint32(header[4:headerLen])
 	payload := make([]byte, payloadLen)
 	_, err = io.ReadAtLeast(w.reader, payload, int(payloadLen))
+	if err == io.EOF {
+		// header was read, so a missing payload is a torn record
+		err = io.ErrUnexpectedEOF
+	}
 	if err != nil {
 		return nil, errors.WithStack(err)
 	}
